@@ -224,6 +224,17 @@ def r3(R, repo):
     eq = lambda e: shp(e) and isinstance(e.ops[0], ast.Eq)
     ok = all(evid.guarded(c, r_, has) == 'yes' for r_ in rs) and all(evid.guarded(c, r_, ne) == 'yes' or evid.guarded(c, r_, eq, negative=True) == 'yes' for r_ in rs)
     R.judge(any(n.kind == 'if' and evid.mentions(n.ast, shp) for n in c.nodes), ok, key, f, 'a parameter whose shape differs from the initialiser\'s must raise ScopeParamShapeError')
+  # the shape comparison runs for every existing parameter: no path with has_variable true reaches the return without the comparison loop
+  cmp_loops = [n for n in c.nodes if n.kind == 'for' and any(isinstance(x, ast.Raise) and astu.raised_name(x) == 'ScopeParamShapeError' for x in ast.walk(n.stmt))]
+  rets_ = [n for n in c.nodes if isinstance(n.stmt, ast.Return)]
+  key = key_of(f, 'shape comparison not skippable for an existing parameter')
+  if len(cmp_loops) == 1 and rets_:
+    wit = None
+    for r_ in rets_:
+      wit = wit or evid.bypass_under(c, {"self.has_variable('params', name)": True}, r_, cmp_loops)
+    R.check(wit is None, key, (f, cmp_loops[0].stmt), 'an existing parameter can reach the return without its shape being compared with the initialiser\'s (path: %s): a wrongly shaped parameter is then used silently' % wit, evidence=True)
+  else:
+    R.unsure(key, f, 'shape comparison loop not found in Scope.param')
   key = key_of(f, 'missing parameter raises unless params is mutable')
   nf = _raises(c, 'ScopeCollectionNotFound') + _raises(c, 'ScopeParamNotFoundError')
   if not nf and not (evid.raises_deep(repo, f, 'ScopeParamNotFoundError') or evid.raises_deep(repo, f, 'ScopeCollectionNotFound')):
